@@ -8,7 +8,9 @@ ENGINE = ('engine',)
 
 # ---------------------------------------------------------------- object lookup
 c = contract(E + "_get_object_type").props('C03', 'C07', 'C13')
-c.args(self=ENGINE, unique_identifier='str')
+c.args(self=ENGINE, unique_identifier=('oneof', 'str', 'none'))
+c.raises('exceptions.ItemNotFound', when="unique_identifier is None", name="no-identifier",
+         ensures="str(raised) == NOT_FOUND_TEXT.format(unique_identifier)")
 c.raises('exceptions.ItemNotFound',
          ensures="str(raised) == NOT_FOUND_TEXT.format(unique_identifier)")
 c.raises('exc.MultipleResultsFound')
@@ -36,13 +38,15 @@ def t_denial_discloses_nothing(ev, outcome, exc):
 
 
 c = contract(E + "_get_object_with_access_controls").props('C03', 'C07')
-c.args(self=ENGINE, uid='str', operation=('enum', 'kmip.core.enums.Operation'))
+c.args(self=ENGINE, uid=('oneof', 'str', 'none'), operation=('enum', 'kmip.core.enums.Operation'))
+c.raises('exceptions.ItemNotFound', when="uid is None", name="no-identifier",
+         ensures="str(raised) == NOT_FOUND_TEXT.format(uid)")
 c.raises('exceptions.ItemNotFound', ensures="str(raised) == NOT_FOUND_TEXT.format(uid)")
 c.raises('exceptions.PermissionDenied', ensures="str(raised) == NOT_FOUND_TEXT.format(uid)",
          name="denied-as-not-found")
 c.raises(('exc.MultipleResultsFound', 'exc.NoResultFound', 'exceptions.InvalidField'))
 c.ensures("granted(self._operation_policies, result.operation_policy_name, self._client_identity, "
-          "result._owner, result.object_type, operation)", name="returned-only-if-granted")
+          "result._owner, result.object_type, operation)", name="returned-only-if-granted", assume=False)
 c.trace("denial-changes-and-discloses-nothing", t_denial_discloses_nothing)
 c.trace("success-does-not-write",
         lambda ev, outcome, exc: True if not any(e[0] in ('db.add', 'db.delete', 'db.commit', 'db.mutate')
@@ -149,3 +153,27 @@ c.trace("success-deletes-the-row", t_destroy)
 c.trace("no-effect-before-raise", t_no_effect_before_raise)
 c.trace("single-transaction", t_single_transaction)
 c.trace("access-controlled", make_access_predicate(['DESTROY']))
+
+# ---------------------------------------------------------------- cryptographic-use gates (C04)
+from contracts.handler_common import make_crypto_gate      # noqa: E402
+
+PL = "kmip.core.messages.payloads."
+GATES = {
+    "_process_encrypt": (PL + "encrypt.EncryptRequestPayload", {"encrypt": ("ENCRYPT", "SYMMETRIC_KEY", 1)}),
+    "_process_decrypt": (PL + "decrypt.DecryptRequestPayload", {"decrypt": ("DECRYPT", "SYMMETRIC_KEY", 1)}),
+    "_process_sign": (PL + "sign.SignRequestPayload", {"sign": ("SIGN", "PRIVATE_KEY", "signing_key")}),
+    "_process_signature_verify": (PL + "signature_verify.SignatureVerifyRequestPayload",
+                                  {"verify_signature": ("VERIFY", "PUBLIC_KEY", "signing_key")}),
+    "_process_mac": (PL + "mac.MACRequestPayload", {"mac": ("MAC_GENERATE", None, 1)}),
+}
+for hname, (pcls, gate) in GATES.items():
+    c = contract(E + hname).props('C03', 'C04', 'C08', 'C09')
+    uidf = {'unique_identifier': UID} if hname == '_process_mac' else \
+        {'_unique_identifier': ('lazyopt', ('obj', 'kmip.core.primitives.TextString', {'value': 'str'}))}
+    c.args(self=ENGINE, payload=('payload', pcls, uidf))
+    c.raises(KMIP_ERRORS)
+    c.trace("crypto-use-gated", make_crypto_gate(gate))
+    c.trace("no-state-change", make_state_predicate(set()))
+    c.trace("no-effect-before-raise", t_no_effect_before_raise)
+    c.trace("single-transaction", t_single_transaction)
+    c.trace("access-controlled", make_access_predicate(['GET']))
